@@ -29,6 +29,7 @@ type sctx struct {
 	defining  *opaqueInfo   // set while the body of an opaque spec function is being translated
 	loopSeen  string        // "seen" names the set of keys already visited by the enclosing map-range loop
 	before    *State        // state before the call at which ghost code is anchored
+	curLoop   *loopInfo     // the loop whose invariant is being translated (disambiguates "rangeindex")
 }
 
 func (vc *VC) ctx(cur, old *State) *sctx {
@@ -356,6 +357,14 @@ func (c *sctx) ident(x *EIdent) (Term, *SType) {
 
 func (c *sctx) pkgObject(o types.Object) (Term, *SType, bool) {
 	switch v := o.(type) {
+	case *types.Var:
+		// a package-level variable: its current content (globals are assumed read-only after initialisation
+		// where an effect check says so)
+		if sp := c.vc.env.byPath[v.Pkg().Path()]; sp != nil {
+			if g, ok := sp.Members[v.Name()].(*ssa.Global); ok {
+				return c.derefPtr(c.vc.globalRef(g), v.Type()), goT(v.Type()), true
+			}
+		}
 	case *types.Const:
 		t := v.Type()
 		switch {
@@ -404,6 +413,16 @@ func (c *sctx) localByName(name string, pos token.Pos) *ssa.Alloc {
 	}
 	if len(cands) == 1 {
 		return cands[0]
+	}
+	if name == "rangeindex" && c.curLoop != nil {
+		// the hidden index of the current loop: the one its header increments
+		for _, in := range c.curLoop.header.Instrs {
+			if st, ok := in.(*ssa.Store); ok {
+				if a, ok := st.Addr.(*ssa.Alloc); ok && a.Comment == "rangeindex" {
+					return a
+				}
+			}
+		}
 	}
 	// several variables of that name: use go/types scopes at the loop position
 	if c.pkg != nil {
@@ -1536,7 +1555,7 @@ func (c *sctx) modTargets(e Expr) []modTarget {
 			case "chanstate":
 				t, _ := c.expr(x.Args[0])
 				return []modTarget{{comp: "H.chancnt", sort: "(Array Int Int)", ref: t}}
-			case "all": // all(Type.field): the whole component
+			case "all": // all(Type.field) / all(pkg.Type.field): the whole component
 				s, ok := x.Args[0].(*ESel)
 				if !ok {
 					panic(specErr(e, "all() needs Type.field"))
@@ -1590,8 +1609,13 @@ func (c *sctx) modTargets(e Expr) []modTarget {
 
 func (c *sctx) wholeField(x *ESel) []modTarget {
 	vc := c.vc
-	id := x.X.(*EIdent)
-	te := &TypeExpr{Kind: "name", Name: id.Name}
+	var te *TypeExpr
+	if q, ok := x.X.(*ESel); ok { // pkg.Type.field
+		te = &TypeExpr{Kind: "name", Pkg: q.X.(*EIdent).Name, Name: q.Name}
+	} else {
+		te = &TypeExpr{Kind: "name", Name: x.X.(*EIdent).Name}
+	}
+	id := &EIdent{Name: te.String()}
 	ty := vc.resolveType(te, c.pkg, c.tenv)
 	st := ty.Go
 	if s, ok := st.Underlying().(*types.Struct); ok {
